@@ -77,7 +77,7 @@ def fam_dist(ctx, ka, kb, template, fr_name, perm, form):
 def families(tier, seed):
     import random
     rng = random.Random(seed)
-    frames = ['axis', 'oblique'] if tier == 'quick' else ['axis', 'planar', 'oblique', 'pyth3', 'pyth7', 'shear']
+    frames = ['axis', 'oblique'] if tier == 'quick' else ['axis', 'planar', 'oblique', 'pyth3', 'pyth7', 'shear', B.random_frame_name(rng), B.random_frame_name(rng)]
     fams = []
     for fi, fr_name in enumerate(frames):
         perms = [None] if tier == 'quick' else [None, rng.randrange(48)]
